@@ -438,3 +438,65 @@ func ClassifyListUsersExclusion(prefix string, p *Prepared, object, relation str
 	}
 	return ""
 }
+
+// PipelineHangShape is the firing condition of the pipeline teardown deadlock finding
+// (known_findings.json C21-pipeline-teardown-deadlock): the requested relation, or a relation reachable
+// from it through computed usersets of the same type, contains the SAME recursive tuple-to-userset
+// operand twice ("R from ts" inside the definition of R, with the type itself among the tupleset's
+// parent types).
+func PipelineHangShape(rm *ref.Model, typ, rel string) bool {
+	seen := map[string]bool{}
+	var walkRel func(r string) bool
+	walkRel = func(r string) bool {
+		if seen[r] {
+			return false
+		}
+		seen[r] = true
+		us := rm.Rewrite(typ, r)
+		if us == nil {
+			return false
+		}
+		count := map[string]int{}
+		var computed []string
+		var walk func(u *openfgav1.Userset)
+		walk = func(u *openfgav1.Userset) {
+			switch v := u.GetUserset().(type) {
+			case *openfgav1.Userset_TupleToUserset:
+				ts, cr := v.TupleToUserset.GetTupleset().GetRelation(), v.TupleToUserset.GetComputedUserset().GetRelation()
+				if cr == r {
+					for _, rr := range rm.Restrictions(typ, ts) {
+						if rr.GetType() == typ {
+							count[ts]++
+						}
+					}
+				}
+			case *openfgav1.Userset_ComputedUserset:
+				computed = append(computed, v.ComputedUserset.GetRelation())
+			case *openfgav1.Userset_Union:
+				for _, c := range v.Union.GetChild() {
+					walk(c)
+				}
+			case *openfgav1.Userset_Intersection:
+				for _, c := range v.Intersection.GetChild() {
+					walk(c)
+				}
+			case *openfgav1.Userset_Difference:
+				walk(v.Difference.GetBase())
+				walk(v.Difference.GetSubtract())
+			}
+		}
+		walk(us)
+		for _, n := range count {
+			if n >= 2 {
+				return true
+			}
+		}
+		for _, cr := range computed {
+			if walkRel(cr) {
+				return true
+			}
+		}
+		return false
+	}
+	return walkRel(rel)
+}
